@@ -806,101 +806,110 @@ def exchArm (env : Env) (lhs : M Unit) (lty : Option Ty) (rhs : M Unit) : M Unit
     emit (ins2 (if ty.isUnsigned then "movzwl" else "movswl") (.r "%ax") (.r "%eax"))
   else pure ()
 
-/-- the tail of `gen_expr`: binary operators -/
+/-- the tail of `gen_expr`, `TY_FLOAT`/`TY_DOUBLE` operands (`sz` is "ss" or "sd") -/
+def binopFlo (sz : String) (op : BinOp) (lhs rhs : M Unit) : M Unit := do
+  rhs
+  pushf
+  lhs
+  popf 1
+  match op with
+  | .add => emit (ins2 ("add" ++ sz) (xmm 1) (xmm 0))
+  | .sub => emit (ins2 ("sub" ++ sz) (xmm 1) (xmm 0))
+  | .mul => emit (ins2 ("mul" ++ sz) (xmm 1) (xmm 0))
+  | .div => emit (ins2 ("div" ++ sz) (xmm 1) (xmm 0))
+  | .eq | .ne | .lt | .le => do
+    emit (ins2 ("ucomi" ++ sz) (xmm 0) (xmm 1))
+    match op with
+    | .eq => do
+      emit (ins1 "sete" (.r "%al"))
+      emit (ins1 "setnp" (.r "%dl"))
+      emit (ins2 "and" (.r "%dl") (.r "%al"))
+    | .ne => do
+      emit (ins1 "setne" (.r "%al"))
+      emit (ins1 "setp" (.r "%dl"))
+      emit (ins2 "or" (.r "%dl") (.r "%al"))
+    | .lt => emit (ins1 "seta" (.r "%al"))
+    | _ => emit (ins1 "setae" (.r "%al"))
+    emit (ins2 "and" (.i 1) (.r "%al"))
+    emit (ins2 "movzb" (.r "%al") rax)
+  | _ => fail "error_tok: invalid expression"
+
+/-- the tail of `gen_expr`, `TY_LDOUBLE` operands -/
+def binopLd (op : BinOp) (lhs rhs : M Unit) : M Unit := do
+  lhs
+  rhs
+  match op with
+  | .add => emit (ins0 "faddp")
+  | .sub => emit (ins0 "fsubrp")
+  | .mul => emit (ins0 "fmulp")
+  | .div => emit (ins0 "fdivrp")
+  | .eq | .ne | .lt | .le => do
+    emit (ins0 "fcomip")
+    emit (ins1 "fstp" (.r "%st(0)"))
+    match op with
+    | .eq => do
+      emit (ins1 "sete" (.r "%al"))
+      emit (ins1 "setnp" (.r "%dl"))
+      emit (ins2 "and" (.r "%dl") (.r "%al"))
+    | .ne => do
+      emit (ins1 "setne" (.r "%al"))
+      emit (ins1 "setp" (.r "%dl"))
+      emit (ins2 "or" (.r "%dl") (.r "%al"))
+    | .lt => emit (ins1 "seta" (.r "%al"))
+    | _ => emit (ins1 "setae" (.r "%al"))
+    emit (ins2 "movzb" (.r "%al") rax)
+  | _ => fail "error_tok: invalid expression"
+
+/-- the tail of `gen_expr`, every other operand type -/
+def binopInt (i : NInfo) (op : BinOp) (lty : Ty) (lhs rhs : M Unit) : M Unit := do
+  rhs
+  push
+  lhs
+  pop "%rdi"
+  let wide := lty.kind == .long || lty.base ≥ 0
+  let ax := if wide then "%rax" else "%eax"
+  let di := if wide then "%rdi" else "%edi"
+  let dx := if wide then "%rdx" else "%edx"
+  match op with
+  | .add => emit (ins2 "add" (.r di) (.r ax))
+  | .sub => emit (ins2 "sub" (.r di) (.r ax))
+  | .mul => emit (ins2 "imul" (.r di) (.r ax))
+  | .div | .mod => do
+    let ty ← needTy "node->ty" i.ty
+    if ty.isUnsigned then do
+      emit (ins2 "mov" (.i 0) (.r dx))
+      emit (ins1 "div" (.r di))
+    else do
+      if lty.size == 8 then emit (ins0 "cqo") else emit (ins0 "cdq")
+      emit (ins1 "idiv" (.r di))
+    if op == .mod then emit (ins2 "mov" (.r "%rdx") rax) else pure ()
+  | .bitand => emit (ins2 "and" (.r di) (.r ax))
+  | .bitor => emit (ins2 "or" (.r di) (.r ax))
+  | .bitxor => emit (ins2 "xor" (.r di) (.r ax))
+  | .eq | .ne | .lt | .le => do
+    emit (ins2 "cmp" (.r di) (.r ax))
+    match op with
+    | .eq => emit (ins1 "sete" (.r "%al"))
+    | .ne => emit (ins1 "setne" (.r "%al"))
+    | .lt => if lty.isUnsigned then emit (ins1 "setb" (.r "%al")) else emit (ins1 "setl" (.r "%al"))
+    | _ => if lty.isUnsigned then emit (ins1 "setbe" (.r "%al")) else emit (ins1 "setle" (.r "%al"))
+    emit (ins2 "movzb" (.r "%al") rax)
+  | .shl => do
+    emit (ins2 "mov" rdi (.r "%rcx"))
+    emit (ins2 "shl" (.r "%cl") (.r ax))
+  | .shr => do
+    emit (ins2 "mov" rdi (.r "%rcx"))
+    if lty.isUnsigned then emit (ins2 "shr" (.r "%cl") (.r ax))
+    else emit (ins2 "sar" (.r "%cl") (.r ax))
+
+/-- the tail of `gen_expr`: binary operators, `switch (node->lhs->ty->kind)` -/
 def binopArm (i : NInfo) (op : BinOp) (lhs : M Unit) (lty? : Option Ty) (rhs : M Unit) : M Unit := do
   let lty ← needTy "node->lhs->ty" lty?
   match lty.kind with
-  | .float | .double => do
-    rhs
-    pushf
-    lhs
-    popf 1
-    let sz := if lty.kind == .float then "ss" else "sd"
-    match op with
-    | .add => emit (ins2 ("add" ++ sz) (xmm 1) (xmm 0))
-    | .sub => emit (ins2 ("sub" ++ sz) (xmm 1) (xmm 0))
-    | .mul => emit (ins2 ("mul" ++ sz) (xmm 1) (xmm 0))
-    | .div => emit (ins2 ("div" ++ sz) (xmm 1) (xmm 0))
-    | .eq | .ne | .lt | .le => do
-      emit (ins2 ("ucomi" ++ sz) (xmm 0) (xmm 1))
-      match op with
-      | .eq => do
-        emit (ins1 "sete" (.r "%al"))
-        emit (ins1 "setnp" (.r "%dl"))
-        emit (ins2 "and" (.r "%dl") (.r "%al"))
-      | .ne => do
-        emit (ins1 "setne" (.r "%al"))
-        emit (ins1 "setp" (.r "%dl"))
-        emit (ins2 "or" (.r "%dl") (.r "%al"))
-      | .lt => emit (ins1 "seta" (.r "%al"))
-      | _ => emit (ins1 "setae" (.r "%al"))
-      emit (ins2 "and" (.i 1) (.r "%al"))
-      emit (ins2 "movzb" (.r "%al") rax)
-    | _ => fail "error_tok: invalid expression"
-  | .ldouble => do
-    lhs
-    rhs
-    match op with
-    | .add => emit (ins0 "faddp")
-    | .sub => emit (ins0 "fsubrp")
-    | .mul => emit (ins0 "fmulp")
-    | .div => emit (ins0 "fdivrp")
-    | .eq | .ne | .lt | .le => do
-      emit (ins0 "fcomip")
-      emit (ins1 "fstp" (.r "%st(0)"))
-      match op with
-      | .eq => do
-        emit (ins1 "sete" (.r "%al"))
-        emit (ins1 "setnp" (.r "%dl"))
-        emit (ins2 "and" (.r "%dl") (.r "%al"))
-      | .ne => do
-        emit (ins1 "setne" (.r "%al"))
-        emit (ins1 "setp" (.r "%dl"))
-        emit (ins2 "or" (.r "%dl") (.r "%al"))
-      | .lt => emit (ins1 "seta" (.r "%al"))
-      | _ => emit (ins1 "setae" (.r "%al"))
-      emit (ins2 "movzb" (.r "%al") rax)
-    | _ => fail "error_tok: invalid expression"
-  | _ => do
-    rhs
-    push
-    lhs
-    pop "%rdi"
-    let wide := lty.kind == .long || lty.base ≥ 0
-    let ax := if wide then "%rax" else "%eax"
-    let di := if wide then "%rdi" else "%edi"
-    let dx := if wide then "%rdx" else "%edx"
-    match op with
-    | .add => emit (ins2 "add" (.r di) (.r ax))
-    | .sub => emit (ins2 "sub" (.r di) (.r ax))
-    | .mul => emit (ins2 "imul" (.r di) (.r ax))
-    | .div | .mod => do
-      let ty ← needTy "node->ty" i.ty
-      if ty.isUnsigned then do
-        emit (ins2 "mov" (.i 0) (.r dx))
-        emit (ins1 "div" (.r di))
-      else do
-        if lty.size == 8 then emit (ins0 "cqo") else emit (ins0 "cdq")
-        emit (ins1 "idiv" (.r di))
-      if op == .mod then emit (ins2 "mov" (.r "%rdx") rax) else pure ()
-    | .bitand => emit (ins2 "and" (.r di) (.r ax))
-    | .bitor => emit (ins2 "or" (.r di) (.r ax))
-    | .bitxor => emit (ins2 "xor" (.r di) (.r ax))
-    | .eq | .ne | .lt | .le => do
-      emit (ins2 "cmp" (.r di) (.r ax))
-      match op with
-      | .eq => emit (ins1 "sete" (.r "%al"))
-      | .ne => emit (ins1 "setne" (.r "%al"))
-      | .lt => if lty.isUnsigned then emit (ins1 "setb" (.r "%al")) else emit (ins1 "setl" (.r "%al"))
-      | _ => if lty.isUnsigned then emit (ins1 "setbe" (.r "%al")) else emit (ins1 "setle" (.r "%al"))
-      emit (ins2 "movzb" (.r "%al") rax)
-    | .shl => do
-      emit (ins2 "mov" rdi (.r "%rcx"))
-      emit (ins2 "shl" (.r "%cl") (.r ax))
-    | .shr => do
-      emit (ins2 "mov" rdi (.r "%rcx"))
-      if lty.isUnsigned then emit (ins2 "shr" (.r "%cl") (.r ax))
-      else emit (ins2 "sar" (.r "%cl") (.r ax))
+  | .float => binopFlo "ss" op lhs rhs
+  | .double => binopFlo "sd" op lhs rhs
+  | .ldouble => binopLd op lhs rhs
+  | _ => binopInt i op lty lhs rhs
 
 def memzeroArm (env : Env) (v? : Option Var) : M Unit := do
   let v ← needVar "node->var" v?
